@@ -18,6 +18,7 @@ import (
 	"compress/zlib"
 	"crypto/ecdh"
 	"fmt"
+	"sort"
 	"strconv"
 	"strings"
 
@@ -804,6 +805,41 @@ func negCurveIDOf(k *ecdh.PrivateKey) int {
 	return 0
 }
 
+// negKeySet renders the per-share private keys of a key set:
+// <Mlkem held>,<MlkemEcdhe held>,<groups in EcdheKeys, +-separated, sorted>,<groups in MlkemKeys>.
+func negKeySet(ks *tls.KeySharePrivateKeys) string {
+	b := func(v bool) int {
+		if v {
+			return 1
+		}
+		return 0
+	}
+	var eg, mg []int
+	for g, k := range ks.EcdheKeys {
+		if k != nil {
+			eg = append(eg, int(g))
+		}
+	}
+	for g, k := range ks.MlkemKeys {
+		if k != nil {
+			mg = append(mg, int(g))
+		}
+	}
+	sort.Ints(eg)
+	sort.Ints(mg)
+	plus := func(xs []int) string {
+		if len(xs) == 0 {
+			return "-"
+		}
+		ss := make([]string, len(xs))
+		for i, x := range xs {
+			ss[i] = strconv.Itoa(x)
+		}
+		return strings.Join(ss, "+")
+	}
+	return fmt.Sprintf("%d,%d,%s,%s", b(ks.Mlkem != nil), b(ks.MlkemEcdhe != nil), plus(eg), plus(mg))
+}
+
 func negHex16(s string) uint16 {
 	if s == "" || s == "0" {
 		return 0
@@ -993,6 +1029,7 @@ func negExec(in KV) string {
 	var cfgMin, cfgMax uint16
 	var ech bool
 	var ecdheG, hybrid int
+	kx := "0,0,-,-"
 	var raw []byte
 	hsID, hsSpec, serr := negSpecFor(id, in["drop"], in["tmin"], in["tmax"])
 	if serr != nil {
@@ -1057,6 +1094,7 @@ func negExec(in KV) string {
 				if ks.Mlkem != nil && ks.MlkemEcdhe != nil {
 					hybrid = 1
 				}
+				kx = negKeySet(ks)
 			}
 			raw = append([]byte(nil), u.HandshakeState.Hello.Raw...)
 			ci, ok := negParseCH(raw)
